@@ -124,7 +124,7 @@ def plan(seed, tier):
                     "world": worlds[wi],
                     "fn": "run_cases",
                     "payload": {"cases": group, "seed": "%s/c14/%d" % (seed, ci), "group": ci, "tier": tier},
-                    "timeout": 600,
+                    "timeout": 1200,
                 }
             )
     return jobs
